@@ -16,12 +16,18 @@ def observe(app, op):
     return r, (r.status, code, ops.resp_gen(op, r))
 
 
-def run_history(rng, n_ops, on_step=None, profile='default'):
+def run_history(rng, n_ops, on_step=None, profile='default', directed=False):
+    """directed: after a random prefix that builds some state, every second request takes one of the targeted
+    shapes of gen.TARGETS (shapes that only a rare combination of circumstances produces by chance)."""
     app = impl.App()
     case = []
     dump = ops.canon_dump(app.raw_dump())
-    for _ in range(n_ops):
-        op = gen.gen_op(rng, dump, profile)
+    for k in range(n_ops):
+        gen.FORCE = gen.TARGETS[(k // 2) % len(gen.TARGETS)] if directed and k >= 10 and k % 2 == 0 else None
+        try:
+            op = gen.gen_op(rng, dump, 'alloc' if directed and k < 10 else profile)
+        finally:
+            gen.FORCE = None
         before = dump
         r, obs = observe(app, op)
         dump = ops.canon_dump(app.raw_dump())
